@@ -27,6 +27,7 @@ fn main() {
     let thorough = ctx.tier == Tier::Thorough;
     let mut opts = OpOptions::new("C05", thorough);
     opts.max_positions = 3;
+    opts.ars = Some(mzv::engines::ars::ArsBudget { restarts: 2, nodes_per_restart: 400, max_changed: 24 });
     let t0 = std::time::Instant::now();
     type K = midnight_curves::k256::Fq;
     let m = modulus::<K>();
